@@ -1354,6 +1354,7 @@ pub fn run(args: &Args) -> Shard {
             "stall" => crate::conc2::run_stall(focus, seed, index),
             "stress" => crate::conc2::run_stress(focus, seed, index, args),
             "bare" => crate::conc2::run_bare(focus, seed, index, args),
+            "estimate" => crate::conc2::run_estimate(focus, seed, index),
             other => { eprintln!("unknown scenario {}", other); std::process::exit(2); }
         };
         shard.case(out.signature, out.nontrivial);
